@@ -32,7 +32,7 @@ class Foo(HasTraits):
 
 
 KINDS = ["const", "anylist", "anydict", "list", "dict", "set", "inst", "factory", "dyn", "tuplelist", "tuple3",
-         "unionlist", "dictlist", "listlist", "anysublist", "anyodict", "dynenumdyn", "uniondef", "tupledef", "unionany", "unionanydict", "mapdyn", "listanynested"]
+         "unionlist", "dictlist", "listlist", "anysublist", "anyodict", "dynenumdyn", "uniondef", "tupledef", "unionany", "unionanydict", "mapdyn", "listanynested", "constnone", "listnone", "dynnone"]
 
 
 class Tags(list):
@@ -49,6 +49,14 @@ def decl(kind):
     if kind == "uniondef":
         # the default given to the Union itself, as a plain list
         return Union(List(Int), None, default_value=[1]), [1]
+    if kind in ("constnone", "listnone", "dynnone"):
+        # comparison_mode=none ("every assignment is a change") - which says nothing about READS of the default
+        from traits.api import ComparisonMode
+        if kind == "constnone":
+            return Int(7, comparison_mode=ComparisonMode.none), 7
+        if kind == "listnone":
+            return List(Int, [1, 2], comparison_mode=ComparisonMode.none), [1, 2]
+        return List(Int, comparison_mode=ComparisonMode.none), [9]
     if kind == "listanynested":
         # a container default that holds a MUTABLE item (the per-instance copy of the default is shallow)
         return List(Any, [[1]]), [[1]]
@@ -98,7 +106,7 @@ def decl(kind):
     raise AssertionError(kind)
 
 
-ASSIGN = {"listanynested": [[3]], "unionany": [3], "unionanydict": {"b": 2}, "mapdyn": "b", "uniondef": [3], "dynenumdyn": 3, "anysublist": [3], "anyodict": {"b": 2}, "const": 1, "anylist": [3], "anydict": {"b": 2}, "list": [3], "dict": {"b": 2}, "set": {3}, "inst": None,
+ASSIGN = {"constnone": 1, "listnone": [3], "dynnone": [3], "listanynested": [[3]], "unionany": [3], "unionanydict": {"b": 2}, "mapdyn": "b", "uniondef": [3], "dynenumdyn": 3, "anysublist": [3], "anyodict": {"b": 2}, "const": 1, "anylist": [3], "anydict": {"b": 2}, "list": [3], "dict": {"b": 2}, "set": {3}, "inst": None,
           "factory": [3], "dyn": [3], "tuplelist": ([3], 1), "tupledef": ([3], 1), "tuple3": ("s", {"q": 1}, 2), "unionlist": [3],
           "dictlist": {"q": [3]}, "listlist": [[3]]}
 
@@ -196,7 +204,7 @@ def run(case, ctx):
                 return _d
             ns["_%s_default" % nm] = mkm(nm)
             ns["_%s__changed" % nm] = lambda self, old, new: None          # a listener on the SHADOW attribute <name>_
-        if k == "dyn":
+        if k in ("dyn", "dynnone"):
             def mk(nm):
                 def _d(self):
                     key = (self.__dict__.setdefault("_serial", -1 - len(dyncalls)), nm)
